@@ -30,6 +30,19 @@ def strOp (f : List Char → Option Nat → Except Err (List (List Char))) (s si
     | .error e => "ERR:" ++ e.name
   | _, _ => "bad-op"
 
+/-- the literal text-level model on an annotation given by its fields, NO domain check (round 5: empty-but-present lists,
+multipliers < 1, adducts without a charge); the list comprehension raises at the first result that does not parse -/
+def textOp (f : Annotation → Option Nat → List (Except Err Parsed)) (a size : String) : String :=
+  match parseAnnotation? a, parseSize? size with
+  | some a, some k =>
+    match collect (f a k) with
+    | .error e => "ERR:" ++ e.name
+    | .ok l =>
+      if l.all (fun p => match p with | .single _ => true | _ => false) then
+        "T" ++ showAnns (l.filterMap fun p => match p with | .single r => some r | _ => none)
+      else "ERR:multi"
+  | _, _ => "bad-op"
+
 def step (line : String) : String :=
   match splitTab line with
   | ["perm", a, k] => expand permutations a k
@@ -40,6 +53,10 @@ def step (line : String) : String :=
   | ["s_prod", s, k] => strOp productStr s k
   | ["s_comb", s, k] => strOp combinationsStr s k
   | ["s_cwr", s, k] => strOp combinationsWithReplacementStr s k
+  | ["t_perm", a, k] => textOp permutationsText a k
+  | ["t_prod", a, k] => textOp productText a k
+  | ["t_comb", a, k] => textOp combinationsText a k
+  | ["t_cwr", a, k] => textOp combinationsWithReplacementText a k
   | ["split", a] =>
     match parseAnnotation? a with
     | some a => if a.intervals.isSome then "ERR:domain" else showAnns (split a)
